@@ -299,7 +299,7 @@ fn main() {
     // keep all length-1 sequences, and longer ones only when the first submission is an allowed edit
     let alpha = alphabet();
     let seqs: Vec<Vec<usize>> = seqs.into_iter().filter(|s| s.len() == 1 || !alpha[s[0]].2).collect();
-    let deadline = Instant::now() + Duration::from_secs(cli.tier.pick(55, 1500));
+    let deadline = Instant::now() + Duration::from_secs(cli.tier.pick(300, 1500));
     let mut execs = 0u64;
     let mut steps = 0u64;
     let mut capped = None;
